@@ -79,7 +79,19 @@ structure Direct where
 
 def kindName : Nat → String
   | 0 => "block" | 1 => "relay" | 2 => "record" | 3 => "unblock"
-  | 4 => "syncBegin" | 5 => "snapshot" | 6 => "syncRet" | _ => "?"
+  | 4 => "syncBegin" | 5 => "snapshot" | 6 => "syncRet" | 7 => "unblock (again)" | _ => "?"
+
+/-- a Go fatal error that means a lock of the repository was released without being held -/
+def lockMisuse (note : String) : Bool :=
+  (note.splitOn "RUnlock of unlocked").length > 1 || (note.splitOn "Unlock of unlocked").length > 1 ||
+  (note.splitOn "unlock of unlocked").length > 1
+
+/-- first element occurring more than once in a sorted array -/
+def firstDup (a : Array Nat) : Option Nat := Id.run do
+  let mut r : Option Nat := none
+  for i in [1:a.size] do
+    if r.isNone && a[i]! == a[i-1]! then r := some a[i]!
+  return r
 
 def judge (j : Json) : Except String Verdict := do
   let inp ← getObj j "in"
@@ -87,8 +99,12 @@ def judge (j : Json) : Except String Verdict := do
   let kind := getStrD inp "kind"
   let status := getStrD obs "status"
   let note := getStrD obs "note"
-  if kind == "worker" || status == "crashed" then
-    return { agree := false, spec := true, why := s!"harness worker crashed: {note}", cover := ["crashed"] }
+  if kind == "worker" then
+    -- a worker died and left no history (no journal): still an observation of the real code
+    let bad := lockMisuse note
+    return { agree := false, spec := !bad, why := s!"the process running the real code died: {note}",
+             sig := if bad then "C08:crashed:lock-released-twice" else "", cover := ["crashed"] }
+  let partialH := status == "crashed"   -- history up to a crash, recovered from the journal
   if status == "error" then
     return { agree := false, spec := true, why := s!"harness error: {note}", cover := ["error"] }
   let P := getNatD inp "P"
@@ -133,6 +149,9 @@ def judge (j : Json) : Except String Verdict := do
   let fail (d : Direct) (sig why : String) : Direct := if d.ok then { ok := false, sig := sig, why := why } else d
   if status == "blocked" then
     d := fail d "C08:progress:blocked" s!"registrations did not complete: {note}"
+  if partialH then
+    d := fail d (if lockMisuse note then "C08:crashed:lock-released-twice" else "C08:crashed:other")
+      s!"the process running the real code died: {note}"
   -- blocks hold
   let mut readers := 0
   let mut syncing := 0
@@ -173,24 +192,26 @@ def judge (j : Json) : Except String Verdict := do
   let sstore := sorted store
   let mut cover : List String := ["trace", s!"kind:{kind}", s!"procs:{procs}", s!"order:{order}", s!"P:{P}",
     s!"G:{getNatD inp "G"}", s!"contend:{getNatD inp "contend"}",
-    (if getNatD inp "synclag_us" > 0 then "synclag:yes" else "synclag:no"), s!"batch:{getNatD inp "batch"}"]
+    (if getNatD inp "synclag_us" > 0 then "synclag:yes" else "synclag:no"), s!"batch:{getNatD inp "batch"}",
+    s!"dbl:{getNatD inp "dbl_pct"}"]
   let mut raced := 0
   for pl in plugs do
     if pl.syncs.size == 0 then
-      if status != "blocked" then
+      if status != "blocked" && !partialH then
         d := fail d "C08:progress:never-synchronised" s!"plugin {pl.p} was never synchronised (Start error: {pl.err})"
       cover := "reg:none" :: cover
     else if pl.syncs.size > 1 then
       dE := fail dE "C08:exactly-once:two-snapshots" s!"plugin {pl.p} was synchronised {pl.syncs.size} times"
     else
       let sy := pl.syncs[0]!
-      if !pl.started then
+      if !pl.started && !partialH then
         d := fail d "C08:progress:start-failed" s!"plugin {pl.p}: stub.Start failed: {pl.err}"
       if retErr[sy.n]?.getD 0 != 0 then
         cover := "reg:sync-failed" :: cover
       else
         let have_ := sorted (sy.ids ++ pl.got)
-        match firstOdd sstore have_ 0 0 with
+        let odd := if partialH then (firstDup have_).map (fun c => (c, 2)) else firstOdd sstore have_ 0 0
+        match odd with
         | none => pure ()
         | some (c, n) =>
           let inSnap := sy.ids.contains c
@@ -234,6 +255,7 @@ def judge (j : Json) : Except String Verdict := do
         | 4 => [.syncBegin (pid e[2]!)]
         | 5 => [.snapshot (pid e[2]!)]
         | 6 => if e[3]?.getD 0 == 0 then [.activate (pid e[2]!), .syncEnd (pid e[2]!)] else [.abort (pid e[2]!)]
+        | 7 => [.unblock e[2]!]   -- released before: a no-op in the model
         | _ => []
       for me in evs do
         if rej.isNone then
@@ -268,6 +290,8 @@ def judge (j : Json) : Except String Verdict := do
           agreeWhy := s!"plugin {pl.p} failed its synchronisation (not activated in the model) but received {pl.got.size} creation requests"
         if ((snaps[sy.n]?).getD #[]) != sy.ids then
           agreeWhy := s!"plugin {pl.p} received a snapshot different from the one SyncFn #{sy.n} handed to the callback"
+  if partialH && rej.isNone then agreeWhy := "the history ends in a crash of the process"
+  if partialH then cover := "crashed" :: cover
   let agree := agreeWhy == ""
   if !dE.ok then cover := "viol:exactly-once" :: cover
   if !dB.ok then cover := "viol:blocks-hold" :: cover
